@@ -37,7 +37,9 @@ def block_lines(b, i):
     k = b[0]
     if k == "p":
         # white space that matters: a hard break written as two trailing blanks, a tab inside the text, a backslash break
-        return [[f"P{i}x"], [f"  P{i}x indented", "more"], [f"P{i}x one  ", "two\ttab"], [f"P{i}x one\\", "two"]][i % 4]
+        # (the indented variant only as the first block of the document: after a list or a footnote definition an indented
+        # paragraph is a continuation of that block when written in place)
+        return [[f"P{i}x"], [f"  P{i}x indented", "more"], [f"P{i}x one  ", "two\ttab"], [f"P{i}x one\\", "two"]][i % 4 if (i % 4 != 1 or i == 1) else 0]
     if k == "code":
         # trailing blanks and tabs inside code are content; an indented code block written with a tab
         return [["```", f"C{i}x\tt  ", "\tlead  ", "  ", "last", "```"], ["<!-- ends any open list item / footnote definition -->", "", f"\tC{i}x tabbed  ", "\t\tmore"]][i % 2]
